@@ -70,6 +70,36 @@ static void chaos_plan(Rng &rng, Plan &p, const std::string &prop) {
             } else interleave_ops(rng, cp, c, c0, c1, BIAS[rng.below(4)], legal, rng.chance(1, 5), per_conn[(size_t) c]);
         }
     }
+    if (prop == "C10" && rng.chance(1, 8)) {
+        // limit exerciser: traffic built to run into each documented cap (hard field limit while buffering a request line /
+        // header / chunk-size line / status line, 64 repetitions, the folded-header cap, max_tx)
+        ConnPlan &cp = p.conns[0]; cp = ConnPlan(); per_conn[0].clear();
+        long hard = p.cfg.get("field_hard", 18000);
+        int kind = (int) rng.below(8);
+        Bytes rq = "GET / HTTP/1.1\r\nHost: a\r\n", rs = "HTTP/1.1 200 OK\r\nContent-Length: 0\r\n";
+        size_t over = (size_t) hard + (size_t) rng.range(1, 300);
+        switch (kind) {
+            case 0: rq = "GET /"; rq.append(over, 'a'); rq += " HTTP/1.1\r\nHost: a\r\n\r\n"; rs += "\r\n"; break;
+            case 1: rq += "X-Long: "; rq.append(over, 'v'); rq += "\r\n\r\n"; rs += "\r\n"; break;
+            case 2: rq = "POST / HTTP/1.1\r\nHost: a\r\nTransfer-Encoding: chunked\r\n\r\n1;"; rq.append(over, 'e'); rq += "\r\na\r\n0\r\n\r\n"; rs += "\r\n"; break;
+            case 3: rq += "\r\n"; rs = "HTTP/1.1 200 "; rs.append(over, 'r'); rs += "\r\nContent-Length: 0\r\n\r\n"; break;
+            case 4: rq += "\r\n"; rs += "X-Long: "; rs.append(over, 'v'); rs += "\r\n\r\n"; break;
+            case 5: for (int i = 0; i < 90; i++) { rq += "X-Rep: v\r\n"; rs += "X-Rep: v\r\n"; } rq += "\r\n"; rs += "\r\n"; break;
+            case 6: { Bytes line = " "; line.append((size_t) std::min<long>(hard - 10, 900), 'c'); line += "\r\n"; rq += "X-Fold: v\r\n"; rs += "X-Fold: v\r\n"; size_t nl = 102400 / (line.size() - 3) + 20; for (size_t i = 0; i < nl; i++) { rq += line; rs += line; } rq += "\r\n"; rs += "\r\n"; break; }
+            default: { int n = (int) p.cfg.get("max_tx", 8) + 6; rq.clear(); rs.clear(); for (int i = 0; i < n; i++) { rq += "GET / HTTP/1.1\r\nHost: a\r\n\r\n"; rs += "HTTP/1.1 200 OK\r\nContent-Length: 0\r\n\r\n"; } if (!p.cfg.has("max_tx")) p.cfg.set("max_tx", 4); break; }
+        }
+        cp.stream[0] = rq; cp.stream[1] = rs;
+        std::vector<Extent> none;
+        static const size_t MEANS[] = {1, 7, 64, 512, 5000};
+        auto c0 = choose_cuts(rng, cp.stream[0], none, ST_UNIFORM, MEANS[rng.below(5)]), c1 = choose_cuts(rng, cp.stream[1], none, ST_UNIFORM, MEANS[rng.below(5)]);
+        if (kind == 6 && rng.chance(2, 3)) {
+            // the folded-header cap is only reachable when no line has to be buffered (buffering is bounded by the hard limit):
+            // chunks end on line boundaries
+            for (int d = 0; d < 2; d++) { std::vector<size_t> &c = d ? c1 : c0; c.clear(); const Bytes &st = cp.stream[d]; size_t every = (size_t) (rng.coin() ? rng.range(1, 30) : rng.range(100, 400)), n = 0; for (size_t i = 0; i + 1 < st.size(); i++) if (st[i] == '\n' && ++n % every == 0) c.push_back(i + 1); }
+        }
+        interleave_ops(rng, cp, 0, c0, c1, 100, false, false, per_conn[0]);
+        p.scenario = "chaos+limits";
+    }
     // merge the connections' op lists (call-level interleaving of connections sharing one cfg)
     {
         std::vector<size_t> idx((size_t) nconn, 0);
